@@ -1110,9 +1110,145 @@ class Canon:
             c |= self._split_literal_sequences(fn)
             c |= self._eliminate_continue(fn)
             c |= self._propagate_aliases(fn)
+            c |= self._reroll(fn)
             changed |= c
             if not c:
                 break
+        return changed
+
+    # ------------------------------------------------------------------------------------------------ re-rolling one unrolled level of a recursion
+    def _reroll(self, fn) -> bool:
+        """`if C(x): x.f(args) else: U` (or the branches the other way round) inside method f itself, where U is what `x.f(args)` does when C(x) does not
+        hold - f's own body with self := x, simplified under that assumption (tests decided by it dropped, loops over a sequence it says is empty
+        removed) - is `x.f(args)`: one level of the recursion was unrolled for a special case.  Equal by induction on the depth of the (finite) tree,
+        using the same identity for the occurrences one level further down.  C must be a pure test (attribute reads, `is None`, zero-argument
+        accessors)."""
+        if not (fn.args.args and fn.args.args[0].arg == 'self') or fn.args.vararg or fn.args.kwarg or fn.args.kwonlyargs:
+            return False
+        params = [a.arg for a in fn.args.args[1:]]
+
+        def rec_call(stmts):
+            if len(stmts) == 1 and isinstance(stmts[0], ast.Expr) and isinstance(stmts[0].value, ast.Call):
+                c = stmts[0].value
+                if isinstance(c.func, ast.Attribute) and c.func.attr == fn.name and isinstance(c.func.value, ast.Name) and c.func.value.id != 'self' and \
+                        not c.keywords and [unparse_(a) for a in c.args] == params[:len(c.args)] and len(c.args) == len(params):
+                    return c
+            return None
+
+        def pure_test(e) -> bool:
+            for n in ast.walk(e):
+                if isinstance(n, ast.Call) and not (isinstance(n.func, ast.Attribute) and n.func.attr.startswith('get_') and not n.keywords and
+                                                    all(isinstance(a, ast.Constant) for a in n.args)):
+                    return False
+                if isinstance(n, (ast.Subscript, ast.Lambda, ast.ListComp, ast.GeneratorExp, ast.NamedExpr, ast.Await, ast.Yield)):
+                    return False
+            return True
+
+        def facts(test, truth: bool):
+            """atoms known under `test is truth`: {text: bool}, or None when nothing follows"""
+            out = {}
+
+            def add(e, val):
+                if isinstance(e, ast.UnaryOp) and isinstance(e.op, ast.Not):
+                    return add(e.operand, not val)
+                if isinstance(e, ast.BoolOp):
+                    if isinstance(e.op, ast.And) and val or isinstance(e.op, ast.Or) and not val:
+                        return all(add(v, val) for v in e.values)
+                    return len(e.values) == 1 and add(e.values[0], val)
+                out[unparse_(e)] = val
+                if isinstance(e, ast.Compare) and len(e.ops) == 1 and isinstance(e.comparators[0], ast.Constant) and e.comparators[0].value is None:
+                    if isinstance(e.ops[0], ast.Is) and val or isinstance(e.ops[0], ast.IsNot) and not val:
+                        out[unparse_(e.left)] = False           # None is falsy
+                return True
+            return out if add(test, truth) and out else None
+
+        def truth_of(e, known):
+            if isinstance(e, ast.UnaryOp) and isinstance(e.op, ast.Not):
+                t = truth_of(e.operand, known)
+                return None if t is None else not t
+            if isinstance(e, ast.BoolOp):
+                ts = [truth_of(v, known) for v in e.values]
+                if isinstance(e.op, ast.And):
+                    return False if False in ts else (True if all(t is True for t in ts) else None)
+                return True if True in ts else (False if all(t is False for t in ts) else None)
+            return known.get(unparse_(e))
+
+        def simplify(stmts, known):
+            out = []
+            for s in stmts:
+                if isinstance(s, ast.If):
+                    t = truth_of(s.test, known)
+                    if t is True:
+                        out += simplify(s.body, known)
+                    elif t is False:
+                        out += simplify(s.orelse, known)
+                    else:
+                        b, o = simplify(s.body, known), simplify(s.orelse, known)
+                        if b or o:
+                            out.append(ast.If(test=s.test, body=b or [ast.Pass()], orelse=o))
+                        elif not pure_test(s.test):
+                            out.append(ast.If(test=s.test, body=[ast.Pass()], orelse=[]))
+                elif isinstance(s, ast.For) and not s.orelse and known.get(unparse_(s.iter)) is False:
+                    continue                  # the assumption says the sequence is empty
+                elif isinstance(s, ast.For):
+                    out.append(ast.For(target=s.target, iter=s.iter, body=simplify(s.body, known) or [ast.Pass()], orelse=s.orelse))
+                else:
+                    out.append(s)
+            return out
+
+        def canon_dump(stmts) -> str:
+            mod = ast.Module(body=copy.deepcopy(stmts), type_ignores=[])
+            names = {}
+
+            class Ren(ast.NodeTransformer):
+                def visit_Name(self, n):
+                    if isinstance(n.ctx, ast.Store) and n.id not in names:
+                        names[n.id] = f"v{len(names)}"
+                    if n.id in names:
+                        return ast.Name(id=names[n.id], ctx=n.ctx)
+                    return n
+            # targets first (in order of appearance), then every use
+            for n in ast.walk(mod):
+                if isinstance(n, ast.Name) and isinstance(n.ctx, ast.Store) and n.id not in names:
+                    names[n.id] = f"v{len(names)}"
+            return ast.dump(Ren().visit(mod), annotate_fields=False, include_attributes=False)
+
+        changed = False
+        for lst in Inliner._stmt_lists(fn):
+            for i, st in enumerate(lst):
+                if not isinstance(st, ast.If) or not st.orelse or not pure_test(st.test):
+                    continue
+                ca, cb = rec_call(st.body), rec_call(st.orelse)
+                if (ca is None) == (cb is None):
+                    continue
+                call, unrolled, taken_when = (ca, st.orelse, False) if ca is not None else (cb, st.body, True)
+                x = call.func.value.id
+                known = facts(st.test, taken_when)
+                if known is None:
+                    continue
+                # the rolled version of the function body: this statement is the plain call (the identity one level further down)
+                marker = ast.Expr(value=copy.deepcopy(call))
+                lst[i] = marker
+                rolled = copy.deepcopy(fn.body)
+                lst[i] = st
+
+                class ToX(ast.NodeTransformer):
+                    def visit_Name(self, n):
+                        return ast.Name(id=x, ctx=n.ctx) if n.id == 'self' else n
+                # locals of the body must not collide with x: rename the body's own loop variable named like x
+                spec = []
+                clash = any(isinstance(n, ast.Name) and n.id == x and isinstance(n.ctx, ast.Store) for s_ in rolled for n in ast.walk(s_))
+                if clash:
+                    class Fresh(ast.NodeTransformer):
+                        def visit_Name(self, n):
+                            return ast.Name(id=x + '__inner', ctx=n.ctx) if n.id == x else n
+                    rolled = [Fresh().visit(s_) for s_ in rolled]
+                spec = simplify([ToX().visit(s_) for s_ in rolled], known)
+                if canon_dump(spec) == canon_dump(simplify(unrolled, known)):
+                    lst[i] = ast.copy_location(marker, st)
+                    ast.fix_missing_locations(fn)
+                    self.counts['RR'] = self.counts.get('RR', 0) + 1
+                    changed = True
         return changed
 
     def _split_literal_sequences(self, fn) -> bool:
